@@ -242,7 +242,8 @@ pub fn run(ctx: &Ctx) -> i32 {
   });
   let mut total = total;
   {
-    let pos = exponent_sweep_positions();
+    let mut pos = exponent_sweep_positions();
+    pos.extend(degree_positions()); // "round" user values: integer degrees
     let chunk = 128usize;
     let sweep = par_jobs((pos.len() + chunk - 1) / chunk, |job| {
       let mut part = Part::new();
